@@ -38,6 +38,10 @@ ASSUMPTIONS = [
 TRUSTED = [
     "C15.extract: statement-level translation of _format_default_value (has_default_value guard, isinstance/is-None chain, "
     "str().lower(), '\"%s\" %', json.dumps, print_ast(ast_node_from_value(..))) and table extraction of _resolve_type_kind / field_definition",
+    "dynamic extraction fallback (used when the source no longer has a recognised shape, and as a cross-check of the static route): "
+    "_resolve_type_kind is called on ONE instance of each of the 8 library type classes + a foreign object, field_definition on every "
+    "(meta field name in {__schema,__type,__typename}, parent is the query type?, disable_introspection?) of a two-type schema; the "
+    "enumeration assumes the answers depend on nothing else (subclass instances are covered by the code-sub stream, other parents / names by the field_definition correspondence)",
     "modelled, not verified: json.dumps (default separators, ensure_ascii), str(int), sorted() on names (code-point order)",
 ]
 
@@ -195,28 +199,125 @@ def translate_format_default(src):
     return lean, tags
 
 
+TYPE_CLASSES = ["ScalarType", "ObjectType", "InterfaceType", "UnionType", "EnumType", "InputObjectType", "ListType", "NonNullType"]
+CLS_KIND = {"ScalarType": "scalar", "ObjectType": "object", "InterfaceType": "interface", "UnionType": "union",
+            "EnumType": "enum", "InputObjectType": "input", "ListType": "list", "NonNullType": "nonNull"}
+TARGETS = {"schema": "SCHEMA_INTROSPECTION_FIELD", "type": "TYPE_INTROSPECTION_FIELD", "typename": "TYPE_NAME_INTROSPECTION_FIELD"}
+
+
+def module_constant(tree, name):
+    """literal value of a module-level `NAME = <literal>` (class names inside stay ast.Name nodes)"""
+    for n in tree.body:
+        if isinstance(n, ast.Assign) and len(n.targets) == 1 and isinstance(n.targets[0], ast.Name) and n.targets[0].id == name:
+            return n.value
+    return None
+
+
 def type_kind_table(src):
-    """[(python class, kind string)] in the order of the isinstance chain of `_resolve_type_kind`."""
+    """STATIC route: [(python class, kind string)] in source order, from either
+       * the if/elif isinstance chain of `_resolve_type_kind`, or
+       * a first-match loop `for cls, kind in TABLE: if isinstance(x, cls): return kind` over a module-level
+         table of (class, kind) pairs."""
+    tree = ast.parse(src)
     fn = py2lean.find_function(src, "_resolve_type_kind")
     arg = fn.args.args[0].arg
+    body = [st for st in fn.body if not (isinstance(st, ast.Expr) and isinstance(st.value, ast.Constant))]
     rows = []
-    node = fn.body[0]
-    while isinstance(node, ast.If):
-        t = node.test
-        if not (isinstance(t, ast.Call) and isinstance(t.func, ast.Name) and t.func.id == "isinstance"
-                and isinstance(t.args[0], ast.Name) and t.args[0].id == arg and isinstance(t.args[1], ast.Name)):
-            raise Shape("_resolve_type_kind test " + ast.dump(t))
-        if not (len(node.body) == 1 and isinstance(node.body[0], ast.Return) and isinstance(node.body[0].value, ast.Constant)):
-            raise Shape("_resolve_type_kind branch body")
-        rows.append((t.args[1].id, node.body[0].value.value))
-        node = node.orelse[0] if len(node.orelse) == 1 else None
+    node = body[0] if body else None
+    if isinstance(node, ast.For):
+        tbl = module_constant(tree, node.iter.id) if isinstance(node.iter, ast.Name) else node.iter
+        tgt = node.target
+        ok = (isinstance(tbl, (ast.Tuple, ast.List)) and isinstance(tgt, ast.Tuple) and len(tgt.elts) == 2
+              and all(isinstance(e, ast.Name) for e in tgt.elts) and len(node.body) == 1 and isinstance(node.body[0], ast.If)
+              and not node.orelse)
+        if ok:
+            c, k = tgt.elts[0].id, tgt.elts[1].id
+            t = node.body[0]
+            ok = (isinstance(t.test, ast.Call) and isinstance(t.test.func, ast.Name) and t.test.func.id == "isinstance"
+                  and len(t.test.args) == 2 and isinstance(t.test.args[0], ast.Name) and t.test.args[0].id == arg
+                  and isinstance(t.test.args[1], ast.Name) and t.test.args[1].id == c and len(t.body) == 1
+                  and isinstance(t.body[0], ast.Return) and isinstance(t.body[0].value, ast.Name) and t.body[0].value.id == k
+                  and not t.orelse)
+        if not ok:
+            raise Shape("_resolve_type_kind: loop is not a first-match isinstance loop over a literal table")
+        for e in tbl.elts:
+            if not (isinstance(e, ast.Tuple) and len(e.elts) == 2 and isinstance(e.elts[0], ast.Name)
+                    and isinstance(e.elts[1], ast.Constant) and isinstance(e.elts[1].value, str)):
+                raise Shape("_resolve_type_kind: table row " + ast.dump(e))
+            rows.append((e.elts[0].id, e.elts[1].value))
+    else:
+        while isinstance(node, ast.If):
+            t = node.test
+            if not (isinstance(t, ast.Call) and isinstance(t.func, ast.Name) and t.func.id == "isinstance"
+                    and isinstance(t.args[0], ast.Name) and t.args[0].id == arg and isinstance(t.args[1], ast.Name)):
+                raise Shape("_resolve_type_kind test " + ast.dump(t))
+            if not (len(node.body) == 1 and isinstance(node.body[0], ast.Return) and isinstance(node.body[0].value, ast.Constant)):
+                raise Shape("_resolve_type_kind branch body")
+            rows.append((t.args[1].id, node.body[0].value.value))
+            node = node.orelse[0] if len(node.orelse) == 1 else None
     if len(rows) < 2:
-        raise Shape("_resolve_type_kind is not an isinstance chain")
+        raise Shape("_resolve_type_kind is neither an isinstance chain nor a table loop")
+    for c, _ in rows:
+        if c not in CLS_KIND:
+            raise Shape("unknown class %s in _resolve_type_kind" % c)
     return rows
 
 
+def type_kind_observed():
+    """DYNAMIC route: the real `_resolve_type_kind` on one instance of every library type class (+ a foreign
+    object, which must raise TypeError). {class name: kind | "raises:<Class>"}"""
+    import py_gql.schema as S
+    from py_gql.schema import introspection as I
+    inst = {
+        "ScalarType": S.ScalarType("Sc", serialize=lambda x: x, parse=lambda x: x),
+        "ObjectType": S.ObjectType("Ob", [S.Field("a", S.Int)]),
+        "InterfaceType": S.InterfaceType("If", [S.Field("a", S.Int)]),
+        "UnionType": S.UnionType("Un", []),
+        "EnumType": S.EnumType("En", ["A"]),
+        "InputObjectType": S.InputObjectType("In", [S.InputField("a", S.Int)]),
+        "ListType": S.ListType(S.Int),
+        "NonNullType": S.NonNullType(S.Int),
+        "<foreign>": object(),
+    }
+    out = {}
+    for k, v in inst.items():
+        try:
+            out[k] = I._resolve_type_kind(v)
+        except Exception as e:  # noqa
+            out[k] = "raises:" + type(e).__name__
+    return out
+
+
+def type_kind_rows():
+    """-> (rows, "static" | "dynamic"). The static table is cross-checked against the observed one."""
+    obs = type_kind_observed()
+    if obs.get("<foreign>") != "raises:TypeError":
+        raise Shape("_resolve_type_kind(<foreign object>) = %r (TypeError expected)" % (obs.get("<foreign>"),))
+    try:
+        rows = type_kind_table(INTROSPECTION.read_text())
+        how = "static"
+    except py2lean.Untranslatable:
+        rows, how = None, "dynamic"
+    if rows is not None:
+        # first match in source order must be what the live function answers (the class hierarchy is flat)
+        first = {}
+        for c, k in rows:
+            first.setdefault(c, k)
+        if any(first.get(c) != obs[c] for c in TYPE_CLASSES if not str(obs[c]).startswith("raises:")) or \
+                any(c in first for c in TYPE_CLASSES if str(obs[c]).startswith("raises:")):
+            rows, how = None, "dynamic"     # the source text is not what runs (decorated / rebound): trust the run
+    if rows is None:
+        rows = [(c, obs[c]) for c in TYPE_CLASSES if not str(obs[c]).startswith("raises:")]
+    return rows, how
+
+
+# ---- field_definition -------------------------------------------------------------------------
+
 def field_definition_shape(src):
-    """Branch structure of ResolutionContext.field_definition: meta names, order of the tests."""
+    """STATIC route. Branch structure of ResolutionContext.field_definition: meta names (a literal tuple or a
+    module-level constant), and the chain of tests of the meta branch — one if/elif chain, or several consecutive
+    `if` statements when every earlier one leaves through `return` (early return == elif)."""
+    tree = ast.parse(src)
     fn = py2lean.find_function(src, "field_definition", cls="ResolutionContext")
     tr = [n for n in ast.walk(fn) if isinstance(n, ast.Try)]
     if len(tr) != 1 or len(tr[0].handlers) != 1:
@@ -226,53 +327,178 @@ def field_definition_shape(src):
         raise Shape("field_definition: handler does not start with if")
     top = h[0]
     t = top.test
-    if not (isinstance(t, ast.Compare) and isinstance(t.ops[0], ast.In) and isinstance(t.comparators[0], (ast.Tuple, ast.List))):
-        raise Shape("field_definition: `name in (...)` test")
-    meta = [c.value for c in t.comparators[0].elts]
-    # inner chain
+    if not (isinstance(t, ast.Compare) and len(t.ops) == 1 and isinstance(t.ops[0], ast.In)):
+        raise Shape("field_definition: `name in ...` test")
+    names = t.comparators[0]
+    if isinstance(names, ast.Name):
+        names = module_constant(tree, names.id)
+    if isinstance(names, ast.Call) and isinstance(names.func, ast.Name) and names.func.id in ("frozenset", "set", "tuple") and len(names.args) == 1:
+        names = names.args[0]
+    if not (isinstance(names, (ast.Tuple, ast.List, ast.Set)) and all(isinstance(c, ast.Constant) and isinstance(c.value, str) for c in names.elts)):
+        raise Shape("field_definition: meta field names are not a literal collection of strings")
+    meta = [c.value for c in names.elts]
+    qnames = set()      # local names bound to the `query_type is parent_type` test
+    for st in ast.walk(top):
+        if isinstance(st, ast.Assign) and len(st.targets) == 1 and isinstance(st.targets[0], ast.Name) \
+                and isinstance(st.value, ast.Compare) and isinstance(st.value.ops[0], ast.Is):
+            qnames.add(st.targets[0].id)
     chain = []
-    node = next((s for s in top.body if isinstance(s, ast.If)), None)
-    while isinstance(node, ast.If):
-        c = node.test
-        if isinstance(c, ast.Attribute) and c.attr == "_disable_introspection":
-            if not (len(node.body) == 1 and isinstance(node.body[0], ast.Return)
-                    and isinstance(node.body[0].value, ast.Constant) and node.body[0].value.value is None):
-                raise Shape("field_definition: disabled branch must `return None`")
-            chain.append(("disabled", None, False))
-        else:
-            name, needs_q = None, False
-            parts = c.values if isinstance(c, ast.BoolOp) and isinstance(c.op, ast.And) else [c]
-            for p in parts:
-                if isinstance(p, ast.Compare) and isinstance(p.ops[0], ast.Eq) and isinstance(p.comparators[0], ast.Constant):
-                    name = p.comparators[0].value
-                elif isinstance(p, ast.Name) and p.id == "is_query_type":
-                    needs_q = True
+    ifs = [st for st in top.body if isinstance(st, ast.If)]
+    if not ifs:
+        raise Shape("field_definition: no test in the meta branch")
+    for n_if, node in enumerate(ifs):
+        all_return = True
+        while isinstance(node, ast.If):
+            c = node.test
+            if isinstance(c, ast.Attribute) and c.attr == "_disable_introspection":
+                if not (len(node.body) == 1 and isinstance(node.body[0], ast.Return)
+                        and isinstance(node.body[0].value, ast.Constant) and node.body[0].value.value is None):
+                    raise Shape("field_definition: disabled branch must `return None`")
+                chain.append(("disabled", None, False))
+            else:
+                name, needs_q = None, False
+                parts = c.values if isinstance(c, ast.BoolOp) and isinstance(c.op, ast.And) else [c]
+                for p in parts:
+                    if isinstance(p, ast.Compare) and isinstance(p.ops[0], ast.Eq) and isinstance(p.comparators[0], ast.Constant):
+                        name = p.comparators[0].value
+                    elif isinstance(p, ast.Name) and p.id in qnames:
+                        needs_q = True
+                    elif isinstance(p, ast.Compare) and isinstance(p.ops[0], ast.Is):
+                        needs_q = True
+                    else:
+                        raise Shape("field_definition: test " + ast.dump(p))
+                tgt = node.body[0]
+                if len(node.body) == 1 and isinstance(tgt, ast.Assign) and isinstance(tgt.value, ast.Name):
+                    chain.append((tgt.value.id, name, needs_q))
+                    all_return = False
+                elif len(node.body) == 1 and isinstance(tgt, ast.Return) and isinstance(tgt.value, ast.Name):
+                    chain.append((tgt.value.id, name, needs_q))
                 else:
-                    raise Shape("field_definition: test " + ast.dump(p))
-            tgt = node.body[0]
-            if not (isinstance(tgt, ast.Assign) and isinstance(tgt.value, ast.Name)):
-                raise Shape("field_definition: branch body")
-            chain.append((tgt.value.id, name, needs_q))
-        node = node.orelse[0] if len(node.orelse) == 1 and isinstance(node.orelse[0], ast.If) else (
-            None if not node.orelse else "else")
-        if node == "else":
-            chain.append(("else", None, False))
-            node = None
+                    raise Shape("field_definition: branch body")
+            node = node.orelse[0] if len(node.orelse) == 1 and isinstance(node.orelse[0], ast.If) else (
+                None if not node.orelse else "else")
+            if node == "else":
+                chain.append(("else", None, False))
+                node = None
+                all_return = False
+        if n_if + 1 < len(ifs) and not all_return:
+            raise Shape("field_definition: consecutive ifs whose earlier branches do not return")
     if not (len(top.orelse) == 1 and isinstance(top.orelse[0], ast.Assign)):
         raise Shape("field_definition: ordinary branch")
     return meta, chain
 
 
+META_CANDIDATES = ["__schema", "__type", "__typename"]
+
+
+def field_definition_observed():
+    """DYNAMIC route: the real method on a small schema for every (name, parent is the query type?, disabled?).
+    {(name, is_query, disabled): "schema"|"type"|"typename"|"none"|"unbound"|"ordinary:<n>"|"exc:<Class>"}"""
+    import py_gql.schema as S
+    from py_gql.execution.wrappers import ResolutionContext
+    from py_gql.lang import parse
+    from py_gql.schema import introspection as I
+    ob = S.ObjectType("Ob", [S.Field("b", S.Int)])
+    q = S.ObjectType("Query", [S.Field("a", S.Int), S.Field("o", ob)])
+    schema = S.Schema(q)
+    doc = parse("{ a }")
+    ident = {id(I.SCHEMA_INTROSPECTION_FIELD): "schema", id(I.TYPE_INTROSPECTION_FIELD): "type",
+             id(I.TYPE_NAME_INTROSPECTION_FIELD): "typename"}
+    out = {}
+    for name in META_CANDIDATES + ["__other", "a", "b"]:
+        for is_q, parent in ((True, q), (False, ob)):
+            for dis in (False, True):
+                rc = ResolutionContext(schema, doc, {}, None, disable_introspection=dis)
+                try:
+                    d = rc.field_definition(parent, name)
+                except UnboundLocalError:
+                    r = "unbound"
+                except Exception as e:  # noqa
+                    r = "exc:" + type(e).__name__
+                else:
+                    r = "none" if d is None else ident.get(id(d), "ordinary:" + d.name)
+                out[(name, is_q, dis)] = r
+    return out
+
+
+def simulate_chain(meta, chain, name, is_q, dis, ordinary):
+    """What the Lean model (`fieldDefinition` / `walkChain`) answers for this extracted table."""
+    if name not in meta:
+        return ordinary
+    for tgt, tested, needs_q in chain:
+        if tgt == "disabled":
+            if dis:
+                return "none"
+        elif tested == name and (not needs_q or is_q):
+            inv = {v: k for k, v in TARGETS.items()}
+            return inv.get(tgt, "none")
+    return "unbound"
+
+
+def chain_from_observed(obs):
+    """Synthesise (meta names, chain) that makes the model reproduce the observed table."""
+    ordinary = {("a", True): "ordinary:a", ("b", False): "ordinary:b"}
+    meta, before, after = [], [], []
+    for name in META_CANDIDATES:
+        rows = {(q, d): obs[(name, q, d)] for q in (True, False) for d in (False, True)}
+        if all(v == "none" for v in rows.values()):
+            continue                      # not treated as a meta field at all (plain lookup misses)
+        meta.append(name)
+        ent = []
+        eq, en = rows[(True, False)], rows[(False, False)]
+        if eq in TARGETS and en == eq:
+            ent.append((TARGETS[eq], name, False))
+        else:
+            if eq in TARGETS:
+                ent.append((TARGETS[eq], name, True))
+            elif eq == "none":
+                ent.append(("NONE", name, True))
+            if en in TARGETS:
+                ent.append((TARGETS[en], name, False))
+            elif en == "none":
+                ent.append(("NONE", name, False))
+        hidden = (rows[(True, True)], rows[(False, True)]) != (eq, en)
+        (after if hidden else before).extend(ent)
+    chain = before + ([("disabled", None, False)] if after else []) + after
+    return meta, chain, ordinary
+
+
+def check_chain(meta, chain, obs):
+    for (name, is_q, dis), real in obs.items():
+        if name in ("a", "b"):
+            ordinary = real
+        else:
+            ordinary = "none"
+        if simulate_chain(meta, chain, name, is_q, dis, ordinary) != real:
+            return (name, is_q, dis, real)
+    return None
+
+
+def field_definition_table():
+    """-> (meta, chain, "static" | "dynamic")"""
+    obs = field_definition_observed()
+    try:
+        meta, chain = field_definition_shape(WRAPPERS.read_text())
+        bad = check_chain(meta, chain, obs)
+        if bad is None:
+            return meta, chain, "static"
+    except py2lean.Untranslatable:
+        pass
+    meta, chain, _ = chain_from_observed(obs)
+    bad = check_chain(meta, chain, obs)
+    if bad is not None:
+        raise Shape("field_definition: observed behaviour %r is outside what the model's chain can express" % (bad,))
+    return meta, chain, "dynamic"
+
+
 def extract(ctx):
     src = INTROSPECTION.read_text()
     fdv, tags = translate_format_default(src)
-    rows = type_kind_table(src)
-    meta, chain = field_definition_shape(WRAPPERS.read_text())
-    cls_kind = {"ScalarType": "scalar", "ObjectType": "object", "InterfaceType": "interface", "UnionType": "union",
-                "EnumType": "enum", "InputObjectType": "input", "ListType": "list", "NonNullType": "nonNull"}
-    for c, _ in rows:
-        if c not in cls_kind:
-            raise Shape("unknown class %s in _resolve_type_kind" % c)
+    rows, how_kind = type_kind_rows()
+    meta, chain, how_fd = field_definition_table()
+    cls_kind = CLS_KIND
+    ctx.extra["extraction"] = {"_format_default_value": "static (statement-level translation)",
+                               "_resolve_type_kind": how_kind, "field_definition": how_fd}
     lines = [py2lean.header("src/py_gql/schema/introspection.py and execution/wrappers.py"),
              "import PyGqlModel.IntrospectPrims", "set_option linter.unusedVariables false",
              "namespace PyGql.Generated.Introspection", "open PyGql PyGql.Introspect", "", fdv,
@@ -692,6 +918,10 @@ def oracle_empty_reason(ctx):
                      {"check": "empty-reason", "how": how})
             continue
         d = r["data"]
+        if not (isinstance(d.get("q"), dict) and isinstance(d.get("e"), dict)):
+            ctx.fail("type-query-known-name-not-resolved", "__type(name: \"Query\") / __type(name: \"E\") is not answered: %s" % str(d)[:200],
+                     {"check": "empty-reason", "how": how})
+            continue
         for what, key, vis, allm in (("field", "a", d["q"]["fields"], d["q"]["all"]), ("enum-value", "A", d["e"]["enumValues"], d["e"]["all"])):
             m = [x for x in allm if x["name"] == key]
             ok = (len(m) == 1 and m[0]["isDeprecated"] is True and m[0]["deprecationReason"] == ""
